@@ -7,6 +7,8 @@
 #include "kernel_ipc.h"
 #include <pmem.h>
 #include <pshm.h>
+/* access permission of every open is symbolic: ownership, naming, sizes, lock and clean-up must not depend on it */
+#define ND_PERM() (ND_BOOL() ? P_SHM_ACCESS_READWRITE : P_SHM_ACCESS_READONLY)
 #define SHM_SLOT 2
 #define SEM_SLOT 4
 
@@ -16,7 +18,7 @@ static unsigned long size_q;
 
 void vk_other(void) {
   q_at = vk_nsys[0] + 1;
-  hq = p_shm_new("a", size_q, P_SHM_ACCESS_READWRITE, NULL);
+  hq = p_shm_new("a", size_q, ND_PERM(), NULL);
   q_ran = 1;
 }
 
@@ -43,12 +45,12 @@ void harness(void) {
   vk_preempt_at = PREEMPT_AT;    /* runner case split: Q runs before P's PREEMPT_AT-th system call */
 #endif
   vk_preempt_on = 1;
-  PShm *hp = p_shm_new("a", size_p, P_SHM_ACCESS_READWRITE, NULL);
+  PShm *hp = p_shm_new("a", size_p, ND_PERM(), NULL);
   vk_preempt_on = 0;
   if (!q_ran) {                  /* not preempted: Q simply comes afterwards */
     vk_cur = 1;
     q_at = 99;
-    hq = p_shm_new("a", size_q, P_SHM_ACCESS_READWRITE, NULL);
+    hq = p_shm_new("a", size_q, ND_PERM(), NULL);
     q_ran = 1;
   }
   /* a p_shm_new that loses the race may fail (it then holds nothing); the handles that were handed
